@@ -9,6 +9,9 @@ import (
 	"fmt"
 	"io/ioutil"
 	"os"
+	"strconv"
+	"strings"
+	"time"
 
 	log "github.com/sirupsen/logrus"
 )
@@ -44,6 +47,7 @@ func main() {
 	out := bufio.NewWriter(os.Stdout)
 	defer out.Flush()
 	enc := json.NewEncoder(out)
+	timeouts := 0
 	for {
 		line, err := in.ReadBytes('\n')
 		if len(line) > 1 {
@@ -56,9 +60,17 @@ func main() {
 			ol := outLine{Id: il.Id, Obs: obs}
 			if e != nil {
 				ol.Err = e.Error()
+				if strings.HasPrefix(ol.Err, "TIMEOUT") {
+					timeouts++
+				}
 			}
 			enc.Encode(ol)
 			out.Flush()
+			if timeouts >= 3 {
+				// the implementation hangs on these inputs: no point in waiting for every remaining case
+				fmt.Fprintln(os.Stderr, "aborting after 3 timed-out cases")
+				os.Exit(3)
+			}
 		}
 		if err != nil {
 			break
@@ -66,11 +78,34 @@ func main() {
 	}
 }
 
-func safeRun(run runner, c json.RawMessage) (obs interface{}, err error) {
-	defer func() {
-		if r := recover(); r != nil {
-			err = fmt.Errorf("PANIC: %v", r)
+type runResult struct {
+	obs interface{}
+	err error
+}
+
+// safeRun runs one case with a watchdog: a case that panics or does not finish in time is
+// reported as such (its goroutines are abandoned) and the run goes on.
+func safeRun(run runner, c json.RawMessage) (interface{}, error) {
+	limit := 20 * time.Second
+	if v := os.Getenv("VERIF_CASE_TIMEOUT_S"); v != "" {
+		if n, e := strconv.Atoi(v); e == nil {
+			limit = time.Duration(n) * time.Second
 		}
+	}
+	ch := make(chan runResult, 1)
+	go func() {
+		defer func() {
+			if r := recover(); r != nil {
+				ch <- runResult{nil, fmt.Errorf("PANIC: %v", r)}
+			}
+		}()
+		o, e := run(c)
+		ch <- runResult{o, e}
 	}()
-	return run(c)
+	select {
+	case r := <-ch:
+		return r.obs, r.err
+	case <-time.After(limit):
+		return nil, fmt.Errorf("TIMEOUT: case did not finish within %v (hang / deadlock)", limit)
+	}
 }
